@@ -415,6 +415,16 @@ impl C02 {
 		if c.flow != 0 {
 			args.proof = false;
 		}
+		if c.flow == 1 && c.retry_honest {
+			// a late-locked send that is retried after a refused reply must be able to select again if the wallet
+			// (wrongly) tries to: keep the amount small and do not sweep the wallet
+			args.use_all = false;
+			if let AmountPick::Frac(f) = args.amount {
+				args.amount = AmountPick::Frac(f % 6000 + 1);
+			} else {
+				args.amount = AmountPick::Frac(2000);
+			}
+		}
 		let flow = c.flow;
 		let mutation = if flow == 2 || flow == 3 { Mutation::None } else { c.mutation.clone() };
 		out.class(format!("flow={}", flow));
